@@ -108,7 +108,16 @@ def kani_workdir():
     subprocess.run(["rsync", "-a", "--delete", "--exclude", "target", "--exclude", "Cargo.lock",
                     KANI_SRC + "/", d + "/"], check=True)
     shutil.copy(os.path.join(REPO, "Cargo.lock"), os.path.join(d, "Cargo.lock"))
+    retarget(d)
     return d
+
+
+def retarget(d):
+    """the harness package names /repo in its path dependencies; VERIF_REPO points a run at another checkout"""
+    if REPO != "/repo":
+        ct = os.path.join(d, "Cargo.toml")
+        t = open(ct).read().replace('"/repo/', '"' + REPO.rstrip("/") + "/")
+        open(ct, "w").write(t)
 
 
 def target_dir():
@@ -280,6 +289,7 @@ def replay_native(h, code, tag, profiles=("dev",)):
     subprocess.run(["rsync", "-a", "--delete", "--exclude", "target", "--exclude", "Cargo.lock",
                     KANI_SRC + "/", d + "/"], check=True)
     shutil.copy(os.path.join(REPO, "Cargo.lock"), os.path.join(d, "Cargo.lock"))
+    retarget(d)
     src = os.path.join(d, "src", h.src_file)
     with open(src, "a") as f:
         f.write("\n" + code + "\n")
